@@ -1449,10 +1449,24 @@ func c02RunSyn(out *vh.Out, op string) {
 			}
 		}
 	}
+	// monitor: within the recovery run a recipient that was delivered is no longer pending - a later
+	// attempt must not name it again (the metadata update after each attempt must take effect even
+	// when the directory held left-overs of an interrupted update)
+	delivered := map[string]bool{}
 	for _, e := range lg {
+		if e.Kind == 'e' && strings.HasPrefix(e.Text, "DLV:") && extDel == "" {
+			for _, r := range strings.Split(e.Text[4:], ".") {
+				if r != "" {
+					delivered[r] = true
+				}
+			}
+		}
 		if e.Kind == 'e' && strings.HasPrefix(e.Text, "ATT:") {
 			out.Stat("syn.attempted")
 			for _, r := range strings.Split(e.Text[4:], ".") {
+				if delivered[r] {
+					out.Violation("C02/resent-after-delivery", line, "recipient "+r+" was delivered by an earlier attempt of the recovery run and is attempted again")
+				}
 				if !stored[r] {
 					out.Violation("C02/foreign-recipient", line, "recipient "+r+" attempted from a hand-made directory is not in the stored metadata")
 				}
